@@ -230,6 +230,8 @@ fn run_cmd(m: &mut M, w: &[&str]) -> String {
             format!("parent={} prev={} next={} first={} last={} removed={}", optid(n.parent()), optid(n.previous_sibling()),
                 optid(n.next_sibling()), optid(n.first_child()), optid(n.last_child()), n.is_removed())
         }
+        "sizeof" => format!("{} {} {} {}", std::mem::size_of::<indextree::Node<P>>(), std::mem::size_of::<indextree::Node<u64>>(),
+            std::mem::size_of::<indextree::Node<[u8; 33]>>(), std::mem::size_of::<indextree::Node<()>>()),
         "render" => {
             // render D <escaped text>
             let d: u8 = w[1].parse().unwrap();
